@@ -4,8 +4,9 @@
     * `Content` / `ToastValue`: a toasted value — its original bytes, the stored (external) form
       (plain, or va_tcinfo ++ pglz/LZ4 stream), its split into chunks, and the pointer PostgreSQL writes.
     * `Row`: a tuple of the TOAST relation (chunk_id oid, chunk_seq int4, chunk_data bytea);
-      `Layout`: rows placed on pages (any order, mixed with other values' rows and with rows whose
-      hint bits say dead/aborted), `encToastRel` its heap file.
+      `toastVisible`: PostgreSQL's visibility rule for TOAST chunks (HeapTupleSatisfiesToast), from the tuple header alone;
+      `Layout`: rows placed on pages (any order, mixed with other values' rows and with rows of aborted insertions —
+      the dead chunk versions), `encToastRel` its heap file.
     * `stats`: the tallies a per-table TOAST report must show.
   Knows nothing about the Go code.  Core Lean only (driver path).
 -/
@@ -145,7 +146,7 @@ def rowTuple (r : Row) (infomask xmin xmax : Nat) : Tuple :=
 
 /-! ### placement on pages -/
 
-/-- one stored tuple: a row and its header state (hint bits decide live / dead / aborted) -/
+/-- one stored tuple: a row and its header state (`toastVisible infomask xmin` decides whether PostgreSQL reads it) -/
 structure Entry where
   row : Row
   infomask : Nat := 0x0902    -- HASVARWIDTH | XMIN_COMMITTED | XMAX_INVALID
@@ -154,7 +155,27 @@ structure Entry where
 deriving Repr, Inhabited
 
 def Entry.tuple (e : Entry) : Tuple := rowTuple e.row e.infomask e.xmin e.xmax
-def Entry.live (e : Entry) : Bool := liveBits e.infomask
+
+/-- **PostgreSQL's visibility rule for TOAST chunks** (`HeapTupleSatisfiesToast`, heapam_visibility.c, 12–16; every
+detoasting read uses SnapshotToast):
+```
+if (!HeapTupleHeaderXminCommitted(tuple)) {
+    if (HeapTupleHeaderXminInvalid(tuple)) return false;
+    /* HEAP_MOVED_OFF / HEAP_MOVED_IN: pre-9.0 VACUUM FULL, cannot occur in a 12–16 cluster */
+    else if (!TransactionIdIsValid(HeapTupleHeaderGetRawXmin(tuple))) return false;   /* cancelled speculative insertion */
+}
+return true;   /* otherwise assume the tuple is valid for TOAST */
+```
+`XminCommitted` = HEAP_XMIN_COMMITTED (0x0100, bit 8) set — this includes frozen tuples (0x0300); `XminInvalid` = of the two
+bits only HEAP_XMIN_INVALID (0x0200, bit 9) set: the inserting transaction is known to have aborted.  t_xmax, the XMAX
+hint bits and the commit log are not looked at: whether a VALUE is alive is decided by the visibility of the main tuple that
+holds the pointer; value ids are never reused while rows carrying them exist, so within one relation the only rows that can
+share a (chunk_id, chunk_seq) with a visible chunk are leftovers of aborted insertions. -/
+def toastVisible (infomask xmin : Nat) : Bool :=
+  infomask.testBit 8 || (!infomask.testBit 9 && xmin != 0)
+
+/-- a stored row is LIVE iff PostgreSQL's TOAST snapshot sees it -/
+def Entry.live (e : Entry) : Bool := toastVisible e.infomask e.xmin
 
 /-- pages of entries, in physical order -/
 abbrev Layout := List (List Entry)
@@ -185,61 +206,12 @@ def encToastRel (lay : Layout) : Bytes := encHeap (lay.map fun pg => Block.page 
 /-- the live rows, in physical order -/
 def Layout.liveRows (lay : Layout) : List Row := (lay.flatten.filter (·.live)).map (·.row)
 
-/-- the relation stores value `v`: its live rows with chunk_id = v.id are exactly v's chunks, in some order -/
+/-- the relation stores value `v`: the rows PostgreSQL's TOAST snapshot sees with chunk_id = v.id are exactly v's chunks, in
+some order (what `toast_fetch_datum` requires; every other row with that chunk id is a dead version: an aborted insertion) -/
 def Layout.Stores (lay : Layout) (v : ToastValue) : Prop :=
   (lay.liveRows.filter fun r => r.id == v.id).Perm (chunkRows v)
 
 instance (lay : Layout) (v : ToastValue) : Decidable (lay.Stores v) := by unfold Layout.Stores; infer_instance
-
-/-! ### what the commit log knows (open finding `C08-unhinted-chunks`)
-
-`Entry.live` is the tuple's OWN HINT BITS (C09's rule; the tool reads no commit log).  PostgreSQL itself decides the
-visibility of a TOAST chunk from the commit log: the inserter committed and no deleter committed
-(HeapTupleSatisfiesToast looks at the hint bits first, then at pg_xact, and sets no hint bit).  A `Fate` is that
-ground truth for one stored tuple; hint bits never contradict it (`hintsSound`) but may not have been set yet. -/
-
-structure Fate where
-  inserted : Bool := true    -- the inserting transaction committed
-  deleted : Bool := false    -- a deleting transaction committed
-deriving Repr, DecidableEq, Inhabited
-
-/-- PostgreSQL's visibility of a chunk once all transactions have ended -/
-def Fate.visible (f : Fate) : Bool := f.inserted && !f.deleted
-
-/-- a hint bit that is set tells the truth: XMIN_COMMITTED (bit 8), XMIN_INVALID alone (bit 9 without 8; both = frozen),
-XMAX_COMMITTED (bit 10 without 11), XMAX_INVALID (bit 11) -/
-def hintsSound (infomask : Nat) (f : Fate) : Prop :=
-  (infomask.testBit 8 = true → f.inserted = true) ∧
-  (infomask.testBit 9 = true ∧ infomask.testBit 8 = false → f.inserted = false) ∧
-  (infomask.testBit 10 = true ∧ infomask.testBit 11 = false → f.deleted = true) ∧
-  (infomask.testBit 11 = true → f.deleted = false)
-
-instance (m : Nat) (f : Fate) : Decidable (hintsSound m f) := by unfold hintsSound; infer_instance
-
-/-- the hint bits decide: the hint-bit rule and the commit log agree on this tuple -/
-def hintsComplete (infomask : Nat) (f : Fate) : Prop := liveBits infomask = f.visible
-
-instance (m : Nat) (f : Fate) : Decidable (hintsComplete m f) := by unfold hintsComplete; infer_instance
-
-/-- a layout together with the fate of every stored tuple -/
-abbrev FatedLayout := List (List (Entry × Fate))
-
-def FatedLayout.layout (l : FatedLayout) : Layout := l.map fun pg => pg.map (·.1)
-
-/-- the rows PostgreSQL sees, in physical order -/
-def FatedLayout.visibleRows (l : FatedLayout) : List Row := (l.flatten.filter (·.2.visible)).map (·.1.row)
-
-/-- the relation stores `v` as PostgreSQL reads it: the VISIBLE rows with chunk_id = v.id are exactly v's chunks -/
-def FatedLayout.StoresPG (l : FatedLayout) (v : ToastValue) : Prop :=
-  (l.visibleRows.filter fun r => r.id == v.id).Perm (chunkRows v)
-
-instance (l : FatedLayout) (v : ToastValue) : Decidable (l.StoresPG v) := by unfold FatedLayout.StoresPG; infer_instance
-
-def FatedLayout.Sound (l : FatedLayout) : Prop := ∀ ef ∈ l.flatten, hintsSound ef.1.infomask ef.2
-def FatedLayout.FullyHinted (l : FatedLayout) : Prop := ∀ ef ∈ l.flatten, hintsComplete ef.1.infomask ef.2
-
-instance (l : FatedLayout) : Decidable l.Sound := by unfold FatedLayout.Sound; infer_instance
-instance (l : FatedLayout) : Decidable l.FullyHinted := by unfold FatedLayout.FullyHinted; infer_instance
 
 /-! ### per-table statistics -/
 
